@@ -265,8 +265,11 @@ def run_core_check(ctx, spec):
         nontrivial += nt
         evaluations += stats["behaviours"]
         ctx.cover(**{"programs_%s" % sc["family"]: len(cases), "behaviours_replayed": stats["behaviours"], "replay_steps": stats["steps"]})
-        samples.append({"family": sc["family"], "case_id": cases[0]["id"],
-                        "behaviour": [{"in": s.get("in"), "out": s.get("out")} for s in behs[nbeh // 2]["steps"][:5]]})
+        mid = behs[nbeh // 2]
+        idx = next((i for i, c in enumerate(cases) if c["id"] == mid["case"]), 0)
+        rendered = ctx.harness(["core", "render", "--cases", cases_path, "--index", idx + 1]).stdout
+        samples.append({"family": sc["family"], "case_id": mid["case"], "script": rendered[:1800],
+                        "behaviour": [{"in": s.get("in"), "out": s.get("out")} for s in mid["steps"][:6]]})
 
     for family, nq, nt_ in spec.get("ast", []):
         # the parsed dialogue of the canonical rendering == the generator's AST (binds the listener's
